@@ -59,7 +59,7 @@ def build(ctx):
     def em(name, sig, must=('R7', 'R12')):
         pc = r.function(F, sig, within=CLS)
         X.inline_helpers(r, F, pc, within=CLS, exclude={'elementAt', 'increment', 'T'})
-        ctx.emit(name + '.body.inc', pc, must_fire=list(must), subs=opt([LH, LT, SH, ST]) + opt(ELEM))
+        ctx.emit(name + '.body.inc', pc, must_fire=list(must), subs=opt([LH, LT, SH, ST]) + opt(ELEM) + [('R1', r'(?<![\w.>:])Capacity\b', '((size_t)KCAPACITY)', 'opt')])
     em('Ring_try_push_move', r'bool\s+try_push\s*\(\s*T&&\s*item\s*\)')
     em('Ring_try_push_copy', r'bool\s+try_push\s*\(\s*const\s+T&\s*item\s*\)')
     em('Ring_try_emplace', r'bool\s+try_emplace\s*\(\s*Args&&\.\.\.\s*args\s*\)')
@@ -81,7 +81,7 @@ def build(ctx):
     insts = [(1, True), (2, False), (3, True)] if ctx.tier == 'quick' else [(1, True), (2, False), (3, True), (5, False), (15, True)]
     for cap, ru in insts:
         kb = probe(ctx, cap, ru)
-        d = {'KBUF': str(kb), 'KPOW2': '1' if (kb & (kb - 1)) == 0 else '0'}
+        d = {'KBUF': str(kb), 'KPOW2': '1' if (kb & (kb - 1)) == 0 else '0', 'KCAPACITY': str(cap)}
         inst = 'Capacity=%d,RoundUp=%s,kBufferSize=%d' % (cap, ru, kb)
         common = dict(defines=d, inst=inst, timeout=600, unwind=kb + 4, replay=dict(prog='replay/c35_replay.cpp', args=lambda ce, u: ['5'], no_rlimit=True),
                       assumptions=['slot loops of the interference step, harness and destructor are bounded by the constant kBufferSize: unwound completely'])
